@@ -1,10 +1,9 @@
 package main
 
-import "time"
+
 
 func init() {
 	props["C05"] = cfg("./c05", false, withAssume(
 		"pairs of sets that are equal under exactly one of {bitwise, Go ==} equality (+0 vs -0, NaN payloads) are not asserted either way",
 	))
-	_ = time.Second
 }
